@@ -482,7 +482,7 @@ fn is_prefix(a: &[u8], full: &[u8]) -> bool {
 /// relaxed check after a hard fault or a crash: untouched files conserved; targets hold
 /// their old content, nothing, a prefix of the right content or the right content; and an
 /// invocation that reports success must have produced exactly the fault-free result.
-fn check_relaxed(e: &Expect, fo: &InvOut, rec: &InvOut, before: &Snap, rec_after: &Snap, after: &Snap, inv_i: usize, crash: bool) -> Option<Fail> {
+fn check_relaxed(e: &Expect, fo: &InvOut, _rec: &InvOut, before: &Snap, rec_after: &Snap, after: &Snap, inv_i: usize, crash: bool) -> Option<Fail> {
     let may: BTreeSet<&String> = e.may_touch.iter().collect();
     for (p, c) in before {
         if may.contains(p) {
@@ -503,24 +503,26 @@ fn check_relaxed(e: &Expect, fo: &InvOut, rec: &InvOut, before: &Snap, rec_after
         if now == old {
             continue;
         }
+        // a target the user declined to overwrite (or that the fault-free run leaves as it
+        // was) must stay as it was; a target that is written may hold a prefix of the right
+        // content; nothing the tool does can make an existing file disappear
         let right = rec_after.get(p);
         let ok = match (now, right) {
-            (Some(Some(n)), Some(Some(r))) => is_prefix(n, r),
-            (None, _) => true,
+            (Some(Some(n)), Some(Some(r))) => e.writes.iter().any(|(wp, _)| wp == p) && is_prefix(n, r),
             _ => false,
         };
         if !ok {
-            return Some(Fail { clause: "wrong-data-under-fault", inv: inv_i, detail: format!("{p} holds data that is neither its old content nor a prefix of the correct content") });
+            return Some(Fail { clause: "wrong-data-under-fault", inv: inv_i, detail: format!("{p} is neither as it was nor a prefix of the correct content (it is {})", if now.is_none() { "gone" } else { "something else" }) });
         }
     }
-    if !crash && fo.out.code == Some(0) && !fo.out.stdout.contains("Error") && !fo.out.stderr.contains("Error") {
+    // exit status 0 is a report of success, whatever was printed: everything must then be as
+    // after the fault-free run (the only tolerated 'success with a message' is the library's
+    // own error path, and that writes nothing and is the same in both runs)
+    if !crash && fo.out.code == Some(0) {
         for p in &e.may_touch {
             if after.get(p) != rec_after.get(p) {
-                return Some(Fail { clause: "silent-failure", inv: inv_i, detail: format!("exit 0 without an error message, but {p} differs from the fault-free result") });
+                return Some(Fail { clause: "silent-failure", inv: inv_i, detail: format!("exit status 0 although an I/O fault was injected, but {p} differs from the fault-free result; stdout {:?}", tail(&fo.out.stdout)) });
             }
-        }
-        if fo.out.stdout != rec.out.stdout {
-            return Some(Fail { clause: "silent-failure", inv: inv_i, detail: format!("exit 0 without an error message, but stdout differs from the fault-free run: {:?} vs {:?}", tail(&fo.out.stdout), tail(&rec.out.stdout)) });
         }
     }
     None
